@@ -509,10 +509,16 @@ def cv_notify_all(ex, st, th, a):
     hook = ex.hooks.get('cv_notify')
     if hook is not None:
         hook(ex, st, th, cv)
+    st.flags['notify:%x' % cv] = st.flags.get('notify:%x' % cv, 0) + 1
     for t in st.threads:
         if t.status == 'cv' and t.wait == cv:
             t.status = 'run'
     return None
+
+
+@model('vp_notified')
+def vp_notified(ex, st, th, a):
+    return st.flags.get('notify:%x' % ex.need_int(st, a[0]), 0)
 
 
 @model('_ZNSt6thread15_M_start_threadESt10unique_ptrINS_6_StateESt14default_deleteIS1_EEPFvvE')
